@@ -111,4 +111,39 @@ PROPS = {
                 "the first validation step of its entry point (live topic and minimal length / outer ASN.1 decoder). Distinct = hash of case / input.",
         "assumptions": COMMON_ASSUME + ["explicit panics on local API misuse (rule 2 of DESIGN 2.10) are not inputs from the network and are not generated"],
     },
+    "C07": {
+        "module": "core", "pkg": "./checks", "level": "exploration",
+        "jobs": [
+            {"test": "TestC07Honest", "quick": 700, "thorough": 40000, "shards_thorough": 14},
+            {"test": "TestC07Byz", "quick": 500, "thorough": 40000, "shards_thorough": 14},
+        ],
+        "rule": "disc.Member instances on the simulated network under virtual time: universe of 2..8 configured members with identifiers over the "
+                "full 16-bit range (boundary-biased), honest participant subset, expected count (>= 2), 1..3 topics in parallel on one Member, probe "
+                "interval, staggered starts, schedule; TestC07Byz adds 1..2 Byzantine members = real Member puppets whose frames are rewritten "
+                "(views with added / dropped / permuted / duplicated / arbitrary ids, different lies per destination, type byte rewritten, another "
+                "member's tag under the own source, replays, premature responses, truncated/extended frames, drops). Oracle per honest completer: list "
+                "strictly ascending, contains itself, has the expected size, only configured members, every honest member in it invoked Synchronize, "
+                "every Byzantine member in it delivered a frame with its own tag; agreement with every honest completer that appears in the list; "
+                "nil <=> continuation ran exactly once before return, error => never; returns by deadline+grace; with exactly `expected` honest "
+                "invokers and no Byzantine member everybody completes. Non-trivial = a lie was applied, an identifier > 255 is present or starts are "
+                "staggered. Distinct = hash of the whole case.",
+        "assumptions": COMMON_ASSUME + ["expected >= 2 (a synchronisation with oneself is not generated: every caller passes n >= 2 or threshold+1 >= 2)"],
+    },
+    "C13": {
+        "module": "core", "pkg": "./checks", "level": "exploration",
+        "jobs": [
+            {"test": "TestC13Sync", "quick": 1, "thorough": 1, "shards_thorough": 14},
+            {"test": "TestC13Stack", "quick": 500, "thorough": 20000, "shards_thorough": 14},
+        ],
+        "rule": "(a) exhaustive: synchronisation-only sessions for ALL pairs and ALL triples (thorough: all 4-tuples) of the 17 boundary identifiers "
+                "{0,1,2,127,128,255,256,257,0x105,511,512,0x205,0x7FFF,0x8000,0xFF00,0xFFFE,0xFFFF} must complete with the full list; (b) rapid: "
+                "full-stack sessions (loud/silent; scripted backend with 1..4 broadcast rounds drawn from 0..127 and optional point-to-point "
+                "exchanges, KeyGen and Sign; real BLS and PS DKG) with 2..5 identifiers (boundary-biased) against a differential twin with "
+                "identifiers 1..n: same completion verdict, same multiset of backend hand-offs after renaming; BLS/PS saved shares and public "
+                "parameters reload on every party, are byte-identical and verify a fresh signature. Non-trivial = at least one identifier > 255. "
+                "Distinct = identifier tuple + session kind.",
+        "exhaustive_claim": False,
+        "exhaustive_parts": "TestC13Sync enumerates the pair/triple (thorough: 4-tuple) space over the boundary set completely; TestC13Stack samples",
+        "assumptions": COMMON_ASSUME,
+    },
 }
